@@ -273,6 +273,7 @@ type Expr struct {
 	Typed []string `json:"typed,omitempty"` // T for `const c T = E`
 	Conv  []string `json:"conv,omitempty"`  // T for `const c = T(E)`
 	Sites []string `json:"sites,omitempty"` // T for the implicit conversion sites (sites.go)
+	Ops   []string `json:"ops,omitempty"`   // operator forms of the sequence programs (sequences.go); Class "seq" skips the plain declarations
 }
 
 func (g *exprGen) expr(maxDepth int, allTypes bool) Expr {
